@@ -892,3 +892,144 @@ class EatStartBoundary(Contract):
 
 
 CONTRACTS.append(EatStartBoundary())
+
+
+# ------------------------------------------------------------------------------------------- HeadersEaeter._eat_headers
+CRLFx2 = bytes_lit(b'\r\n\r\n')
+LFCRLF = bytes_lit(b'\n\r\n')
+CRLFCR = bytes_lit(b'\r\n\r')
+
+
+class _ReMatch(Val):
+    def __init__(self, kind, pos=None, tail=None):
+        self.kind, self.pos, self.tail = kind, pos, tail
+
+
+class EatHeaders(Contract):
+    """the end-of-headers search, pinned down case by case (result, exception, carried expectation), relative to the
+    specification of the regular expression (frames/headers_regex.py validates that specification against the real pattern).
+
+    expectation E carried from the previous chunk (the part of CRLFCRLF still to come; the eater is then entered at base 0):
+      chunk begins with E                       -> end of headers at  len(E) - 4  (negative: the terminator began earlier), E cleared
+      no byte                                   -> None, E kept
+      chunk is a proper prefix of E             -> None, E := E minus that prefix
+      anything else, E == LF  (CR LF CR seen)   -> MalformedHeadersError
+      anything else, longer E                   -> E cleared, then the search below on the same chunk
+    no expectation: CRLFCRLF found at i >= base -> i;  not found and the chunk ends with CR / CR LF / CR LF CR
+                                                -> None, E := the rest of CRLFCRLF;  otherwise None, E stays None."""
+    props = ('C06',)
+    file = 'ombott/request_pkg/multipart.py'
+    qualname = 'HeadersEaeter._eat_headers'
+    assumptions = ('specification of end_headers_patt.search (frames/headers_regex.py: validated by enumeration on a bounded scope)',
+                   'a carried expectation implies base == 0: it is set only when a chunk ended, and the next chunk is entered at 0 (iter_markup contract)')
+    expected_labels = ('exp.continuation_found_gives_the_position_before_the_terminator', 'exp.no_byte_keeps_the_expectation',
+                       'exp.partial_continuation_shortens_the_expectation', 'exp.broken_after_crlfcr_is_malformed',
+                       'search.terminator_position_is_returned', 'search.partial_terminator_at_the_end_is_carried',
+                       'search.nothing_found_carries_nothing', 'exp.mismatch_restarts_the_search_on_this_chunk')
+
+    def pre(self, X):
+        g = X.globals
+        self.Mal = g['MalformedHeadersError']
+        self.chunk = X.fresh(BytesSort, 'chunk')
+        self.ekind = X.choose(4, 'expectation: None | LF | LF CR LF | CR LF')
+        self.E = [None, LF, LFCRLF, CRLF][self.ekind]
+        self.base = X.fresh(z3.IntSort(), 'base')
+        X.assume(z3.And(self.base >= 0, self.base <= L(self.chunk)))
+        if self.E is not None:
+            X.assume(self.base == 0)
+        self.searched = None
+        c = self
+
+        def search(X, args, kwargs):
+            ch, b = args[-2], args[-1]
+            X.prove('search.on_this_chunk_from_base', z3.And(ch.t == c.chunk, b.t == c.base))
+            i = z3.IndexOf(c.chunk, CRLFx2, c.base)
+            k = X.choose(5, 'search: terminator found | ends CRLFCR | ends CRLF(+LF) | ends CR | nothing')
+            tail = z3.SubSeq(c.chunk, c.base, L(c.chunk) - c.base)
+            if k == 0:
+                X.assume(i >= 0)
+                c.searched = ('end', i)
+                return _ReMatch('end', pos=i)
+            X.assume(i < 0)
+            if k == 1:
+                X.assume(z3.SuffixOf(CRLFCR, tail))
+                c.searched = ('tail', CRLFCR)
+                return _ReMatch('tail', tail=CRLFCR)
+            X.assume(z3.Not(z3.SuffixOf(CRLFCR, tail)))
+            if k == 2:
+                X.assume(z3.Or(z3.SuffixOf(CRLF, tail), z3.SuffixOf(z3.Concat(CRLF, LF), tail)))
+                c.searched = ('tail', CRLF)
+                return _ReMatch('tail', tail=CRLF)
+            X.assume(z3.Not(z3.Or(z3.SuffixOf(CRLF, tail), z3.SuffixOf(z3.Concat(CRLF, LF), tail))))
+            if k == 3:
+                X.assume(z3.SuffixOf(CR, tail))
+                c.searched = ('tail', CR)
+                return _ReMatch('tail', tail=CR)
+            X.assume(z3.Not(z3.SuffixOf(CR, tail)))
+            c.searched = ('none', None)
+            return NONE
+        self.stubs = {'end_headers_patt.search': search}
+        self.me = VObj('HE', {'headers_end_expected': VBytes(self.E) if self.E is not None else NONE})
+        return {'self': self.me, 'chunk': VBytes(self.chunk), 'base': VInt(self.base)}
+
+    def method_hook(self, X, obj, name, args, kwargs):
+        if isinstance(obj, _ReMatch):
+            if name == 'start' and len(args) == 1:
+                return VInt(obj.pos if obj.kind == 'end' else z3.IntVal(-1))
+            if name == 'group' and len(args) == 1:
+                k = z3.simplify(args[0].t).as_long()
+                if k == 2:
+                    return VBytes(obj.tail) if obj.kind == 'tail' else NONE
+        return None
+
+    def exp_now(self):
+        v = self.me.fields['headers_end_expected']
+        return v
+
+    def _exp_is(self, X, want):
+        v = self.exp_now()
+        if want is None:
+            return z3.BoolVal(isinstance(v, VNone))
+        return v.t == want if isinstance(v, VBytes) else z3.BoolVal(False)
+
+    def post(self, X, ret):
+        ch, E = self.chunk, self.E
+        n = L(ch)
+        if E is not None and self.searched is None:
+            # decided by the expectation alone
+            lenE = L(E)
+            if isinstance(ret, VInt):
+                X.prove('exp.continuation_found_gives_the_position_before_the_terminator',
+                        z3.And(z3.PrefixOf(E, ch), ret.t == lenE - 4, self._exp_is(X, None)))
+            else:
+                v = self.exp_now()
+                if isinstance(v, VBytes):
+                    X.prove('exp.no_byte_keeps_the_expectation' if False else 'exp.partial_continuation_shortens_the_expectation',
+                            z3.Or(z3.And(n == 0, v.t == E),
+                                  z3.And(n > 0, n < lenE, z3.PrefixOf(ch, E), v.t == z3.SubSeq(E, n, lenE - n))))
+                    X.prove('exp.no_byte_keeps_the_expectation', z3.Implies(n == 0, v.t == E))
+                else:
+                    X.prove('exp.partial_continuation_shortens_the_expectation', z3.BoolVal(False))
+            return
+        if E is not None:
+            # mismatch with a longer expectation: the search ran on this very chunk
+            X.prove('exp.mismatch_restarts_the_search_on_this_chunk',
+                    z3.And(z3.BoolVal(self.ekind in (2, 3)), z3.Not(z3.PrefixOf(E, ch)), z3.Not(z3.And(n < L(E), z3.PrefixOf(ch, E)))))
+        kind, what = self.searched
+        if kind == 'end':
+            X.prove('search.terminator_position_is_returned',
+                    z3.And(ret.t == what, self._exp_is(X, None)) if isinstance(ret, VInt) else z3.BoolVal(False))
+        elif kind == 'tail':
+            X.prove('search.partial_terminator_at_the_end_is_carried',
+                    z3.And(z3.BoolVal(isinstance(ret, VNone)), self._exp_is(X, z3.SubSeq(CRLFx2, L(what), 4 - L(what)))))
+        else:
+            X.prove('search.nothing_found_carries_nothing', z3.And(z3.BoolVal(isinstance(ret, VNone)), self._exp_is(X, None)))
+
+    def post_raise(self, X, exc):
+        ch, E = self.chunk, self.E
+        X.prove('exp.broken_after_crlfcr_is_malformed',
+                z3.And(z3.BoolVal(exc.pyclass is self.Mal and self.ekind == 1 and self.searched is None),
+                       L(ch) > 0, z3.Not(z3.PrefixOf(LF, ch))) if E is not None else z3.BoolVal(False))
+
+
+CONTRACTS.append(EatHeaders())
